@@ -9,6 +9,7 @@ CONSTANTS
   IdsIdentifyContent = TRUE
   IncOf <- MCIncOf
   KeepHigherIncarnation = TRUE
+  ReuseUnattested = FALSE
   StateEarly = FALSE
   InitScenarios = {"fresh"}
   InitDocs <- DocsEmptyId
